@@ -34,6 +34,8 @@ class FV:
                  parent=None, parent_at=None):
         self.repo = repo
         self.f = repo.func(qual)
+        if ctx is None and parent is not None:
+            ctx = parent.ctx          # closure variables are resolved in the parent: one atom table
         self.ev = Evaluator(repo, self.f, ctx or Ctx(), self_type=self_type, param_types=param_types,
                             parent=parent.ev if parent else None, parent_at=parent_at)
         self.ev.alias_mode = alias_mode
